@@ -87,6 +87,15 @@ def run_case(case):
                     r = run_scenario(copy.deepcopy(sc))
                     acc.out["obs"]["failing_positions_enumerated"] += 1
                     acc.add(r, [PROP], sc=sc, cls=lambda r, k=k, err=err, when=when: _cls(r, sname, err, when))
+            # once per position: the signalling thread (Event.set / Queue.put / lock release) is descheduled right after signalling,
+            # so a waiter woken by the flag runs before whatever the signaller does next
+            sc = copy.deepcopy(base)
+            sc["faults"] = [{"match": {"op": "checkpoint", "n": k}, "err": case["errs"][k % len(case["errs"])], "when": "before"}]
+            sc["opts"] = dict(sc["opts"], perturb={"p": 0.0, "seed": case["prog_seed"] * 31 + k, "files": ["threading.py", "state.py", "executor.py"],
+                                                   "after_sync": {"p": 0.8, "sleep": 0.003}})
+            r = run_scenario(copy.deepcopy(sc))
+            acc.out["obs"]["failing_positions_under_after_sync_perturbation"] = acc.out["obs"].get("failing_positions_under_after_sync_perturbation", 0) + 1
+            acc.add(r, [PROP], sc=sc, cls=lambda r, k=k: _cls(r, sname, sc["faults"][0]["err"], "before") + "|after-sync")
         return acc.out
     sc = W.base_scenario({"prog_seed": case["prog_seed"], "gen": {"max_ops": 8}})
     r0 = run_scenario(copy.deepcopy(sc))
@@ -121,7 +130,7 @@ RULE = ("for each of ten program shapes (steps whose results force the overflow 
         "re-submitted by the TimerScheduler while a sibling is held inside its step function, so the failing call is the timer thread's "
         "empty refresh checkpoint; the >6 MB final-result checkpoint; nested parallel/map/child with an invoke) EVERY position of the "
         "checkpoint-call sequence is made the failing call x error class (5xx, 4xx, Invalid Checkpoint Token, non-botocore; all ten "
-        "classes in the thorough tier) x {request lost, response lost}; plus random programs with a random failing call under yield "
+        "classes in the thorough tier) x {request lost, response lost}, and once more per position under after-sync perturbation (the signalling thread is descheduled right after Event.set / Queue.put / lock release); plus random programs with a random failing call under yield "
         "injection. Oracle after the first failed call: no further API call; no result/error delivered for an unrecorded outcome; no "
         "at-most-once entry without recorded START; outcome raise (retriable 4xx) or FAILED(CheckpointError) per the classification "
         "pinned by the repository's tests, never SUCCEEDED/PENDING; termination decided by the logical hang rule (identical stack "
